@@ -282,4 +282,87 @@ theorem C19_success_implies_canonical_on_the_wire (cvt : Int → Nat) (c : Const
   rw [C19_routed_to_interface cvt c desc st fresh req hi] at hr
   exact C19_success_implies_canonical cvt st fresh req r hr he
 
+/-! ### a step passes at most once; concurrent requests are sequential histories
+
+Concurrency.  One call holds the `RwLock` write guard from the lookup of the
+client id to the update of its step, so the table is read and written
+atomically per request: a concurrent execution on any number of connections is
+SOME sequential history (`statesBefore`) of the same requests — that is the
+modelling assumption (a check that looked the step up and advanced it under two
+separate lock acquisitions would not satisfy it).  The theorems below are about
+all sequential histories, hence about all linearisations. -/
+
+/-- `CanonicalFor` with the client id exposed -/
+def CanonicalForId (cvt : Int → Nat) (st : CertState) (req : Request) (k : Step) (cid : String) : Prop :=
+  req.method = k.method ∧ modeOk k.mode req = true ∧
+  ∃ p, req.parameters = some p ∧ decode cvt k.argsTy p = some (k.wants cid) ∧ st.get cid = some k
+
+theorem canonicalFor_of_id {cvt : Int → Nat} {st : CertState} {req : Request} {k : Step} {cid : String}
+    (h : CanonicalForId cvt st req k cid) : CanonicalFor cvt st req k :=
+  ⟨h.1, h.2.1, h.2.2.choose, cid, h.2.2.choose_spec⟩
+
+/-- a canonical request consumes the step: afterwards the client is at the next one -/
+theorem C19_success_consumes_step (cvt : Int → Nat) (st : CertState) (fresh : String) (req : Request)
+    (k : Step) (cid : String) (h : CanonicalForId cvt st req k cid) :
+    (certHandle cvt st fresh req).1.get cid = some k.next := by
+  obtain ⟨hm, hmode, p, hp, hd, hg⟩ := h
+  unfold certHandle
+  rw [hm, if_neg (method_ne_start k), stepOfMethod_method]
+  simp only [hp, hd, clientIdOf_wants, checkClientId_of_get hg, hmode,
+    teq_refl _ (wants_plain k cid), Bool.and_self, if_true]
+  exact get_set_same _ _ _
+
+/-- **a step is answered with success at most once per client**: in every
+    sequential history of calls (any requests whatsoever, by anybody, on any
+    connection) in which the id `cid` is not handed out again, once the canonical
+    request of step `k ≠ End` of client `cid` has passed, no later request is
+    canonical for `(cid, k)` — so by `C19_success_implies_canonical` none gets
+    that step's success reply: a completed step cannot be replayed.  (`End` leaves
+    the client at `End` and can be repeated, as written in main.rs.) -/
+theorem C19_step_succeeds_at_most_once (cvt : Int → Nat) (cid : String) (k : Step) (hk : k ≠ .fin)
+    (st : CertState) (fresh : String) (req : Request) (hist : List (String × Request))
+    (hfresh : ∀ e ∈ hist, e.1 ≠ cid) (hc : CanonicalForId cvt st req k cid) :
+    ∀ sr ∈ statesBefore cvt (certHandle cvt st fresh req).1 hist,
+      ¬ CanonicalForId cvt sr.1 sr.2 k cid := by
+  intro sr hsr hcan
+  have h1 : rankOf (certHandle cvt st fresh req).1 cid = k.next.rank := by
+    simp [rankOf, C19_success_consumes_step cvt st fresh req k cid hc]
+  have h2 := rankOf_mono_hist cvt cid hist _ hfresh sr hsr
+  have h3 : rankOf sr.1 cid = k.rank := by simp [rankOf, hcan.2.2.choose_spec.2.2]
+  have h4 := rank_next_gt k hk
+  omega
+
+/-- **the same step of the same client on n connections at once**: whatever the
+    order in which the n identical canonical requests take the lock, the first
+    gets the success replies and every other one `ClientIdError` -/
+theorem C19_identical_requests_race (cvt : Int → Nat) (k : Step) (hk : k ≠ .fin) (cid : String) :
+    ∀ (n : Nat) (st : CertState) (fresh : String), st.get cid = some k →
+      (statesBefore cvt st (List.replicate (n + 1) (fresh, canonStepReq k cid))).map
+        (fun sr => (certHandle cvt sr.1 fresh sr.2).2) =
+      k.successActs :: List.replicate n [.reply clientIdError] := by
+  intro n st fresh hg
+  have hstep := certHandle_canon_step cvt st fresh k cid hg
+  simp only [List.replicate_succ, statesBefore, List.map_cons, hstep]
+  congr 1
+  -- afterwards the client is at `k.next ≠ k`: every further copy is out of order
+  have hne : k.next ≠ k := fun e => by
+    have := rank_next_gt k hk; rw [e] at this; exact Nat.lt_irrefl _ this
+  have hrej : ∀ (m : Nat) (s : CertState), s.get cid = some k.next →
+      (statesBefore cvt s (List.replicate m (fresh, canonStepReq k cid))).map
+        (fun sr => (certHandle cvt sr.1 fresh sr.2).2) = List.replicate m [.reply clientIdError] := by
+    intro m
+    induction m with
+    | zero => intro s _; rfl
+    | succ m ih =>
+      intro s hs
+      have hh : certHandle cvt s fresh (canonStepReq k cid) = (s, [.reply clientIdError]) := by
+        unfold certHandle
+        rw [canonStepReq_method, if_neg (method_ne_start k), stepOfMethod_method]
+        simp only [canonStepReq_params, decode_canon_params, clientIdOf_wants]
+        have : checkClientId s cid k = none := by simp [checkClientId, hs, hne]
+        simp only [this]
+      simp only [List.replicate_succ, statesBefore, List.map_cons, hh]
+      rw [ih s hs]
+  exact hrej n _ (get_set_same _ _ _)
+
 end VV
